@@ -401,18 +401,34 @@ impl<'t, A> Fold<'t, A> for TreeExhaustiveness {
         use Variance::{Invariant, Variant};
 
         match branch {
-            branch @ BranchKind::Repetition(_) => match term.as_variance() {
+            branch @ BranchKind::Repetition(_) => {
                 // When folding terms into a repetition, only finalize variant terms and the
                 // multiplicative identity and annihilator (one and zero). This is necessary,
                 // because natural bounds do not express the subset nor relationship of matched
                 // values within the range. Consider `<*/*/>`. This pattern is unbounded w.r.t.
                 // depth, but only matches paths with a depth that is a multiple of two and so is
                 // nonexhaustive. However, the similar pattern `<*/>` is exhaustive and matches any
-                // sub-tree of a match.
-                Invariant(&Depth::ZERO) | Invariant(&Depth::ONE) | Variant(_) => {
+                // sub-tree of a match. The same applies to each branch of a disjunctive term, as
+                // in `<{*/*/,*/*/}:1,>`.
+                fn is_finalizable(variance: &TokenVariance<Depth>) -> bool {
+                    matches!(
+                        variance,
+                        Invariant(Depth::ZERO) | Invariant(Depth::ONE) | Variant(_),
+                    )
+                }
+
+                let is_finalizable = match term {
+                    BoundaryTerm::Conjunctive(ref term) => is_finalizable(term.as_ref()),
+                    BoundaryTerm::Disjunctive(ref term) => {
+                        term.branches().map(AsRef::as_ref).all(is_finalizable)
+                    },
+                };
+                if is_finalizable {
                     self::finalize::<Depth>(branch, term)
-                },
-                _ => term,
+                }
+                else {
+                    term
+                }
             },
             branch => self::finalize::<Depth>(branch, term),
         }
